@@ -67,6 +67,17 @@ func (g *Gen) thesQueries(seg string, reuse bool) {
 			// synonym fields contribute nothing to the ordinary dictionaries
 			g.emit("q dict %s %s aut=all lo=* hi=* probe=%s", seg, th, hxList(probe))
 		}
+		if reuse && len(probe) > 1 {
+			// a recycled list and iterator: a miss, then a hit whose iteration is abandoned after one
+			// pair, then fresh lookups that must be empty
+			sl, si := g.fresh("l"), g.fresh("i")
+			g.emit("q thes %s %s %s ex=nil sl=%s si=%s", seg, th, hx(absentTerm()), sl, si)
+			g.emit("q thes %s %s %s ex=nil sl=%s si=%s take=1", seg, th, hx(probe[0]), sl, si)
+			g.emit("q thes %s %s %s ex=nil", seg, th, hx([]byte("absent2")))
+			g.emit("q thes %s nothes %s ex=nil", seg, hx(probe[0]))
+			g.emit("q thes %s %s %s ex=nil sl=%s si=%s", seg, th, hx(absentTerm()), sl, si)
+			g.emit("q thes %s %s %s ex=nil sl=%s si=%s", seg, th, hx(probe[0]), sl, si)
+		}
 		for _, t := range probe {
 			for _, ex := range g.exclusions(nd) {
 				line := fmt.Sprintf("q thes %s %s %s ex=%s", seg, th, hx(t), ex)
@@ -497,6 +508,25 @@ func (g *Gen) genC20(n int) error {
 		g.emit("endpar")
 		g.emit("ref refs %s", o)
 		g.emit("ref mapped %s", o)
+		g.emit("ref close %s", o)
+		g.emit("ref mapped %s", o)
+	}
+	// sharers coming and going (the count moves between 1 and 2 again and again) while the
+	// remaining holder reads dictionaries of several fields
+	for c := 0; c < g.tierN(3, 12); c++ {
+		g.emit("note case share%d", c)
+		o := g.fresh("o")
+		g.emit("open %s %s", o, f)
+		g.alias(o, s)
+		fns := sortedFieldNames(g.univ[o].Fields)
+		g.emit("par %d rounds=%d", 2+g.r.Intn(2), g.tierN(40, 200))
+		g.emit("ref addref %s", o)
+		g.emit("ref decref %s", o)
+		for k := 0; k < 5; k++ {
+			g.emit("q dict %s %s aut=all lo=* hi=* probe=-", o, fns[k%len(fns)])
+		}
+		g.emit("endpar")
+		g.emit("ref refs %s", o)
 		g.emit("ref close %s", o)
 		g.emit("ref mapped %s", o)
 	}
